@@ -37,6 +37,7 @@ def run(ctx, rep):
     n = totality.report(ctx, rep, E, ec, occ, ALLOWED, "C08")
     nl = totality.check_termination(ctx, rep, E, ec)
     nr = totality.check_recursion(ctx, rep, E)
+    totality.check_definite_assignment(ctx, rep, E)
     totality.check_cache_shape(ctx, rep, E)
     # EST-CAPACITY_NONNEG: the grammar functions assume an accepted atom has capacity >= 0 (a negative capacity later
     # raises ValueError / AttributeError): every non-None result of process_atom_symbol entails it on its own path --
@@ -64,9 +65,9 @@ def run(ctx, rep):
     if not bad:
         rep.ob("NW", True, dec.node, dec, construct="writes of the decoder region to the constraint table / its memos",
                how="none (effect analysis over %d functions)" % len(E.quals), key="no-table-write", nontrivial=True)
-    if n < 60:
-        rep.floor_failures.append("only %d raise sites enumerated in the decoder region (expected >= 60)" % n)
-    if nl < 4:
-        rep.floor_failures.append("only %d while-loops found in the decoder region (expected >= 4)" % nl)
+    if n < 40:
+        rep.floor_failures.append("only %d raise sites enumerated in the decoder region (expected >= 40; 100+ on the pinned tree)" % n)
+    if nl < 2:
+        rep.floor_failures.append("only %d while-loops found in the decoder region (expected >= 2; 4 on the pinned tree -- a loop may legitimately be respelled as a for loop)" % nl)
     rep.analysed.update({"region_functions": len(E.quals), "raise_sites": n, "while_loops": nl, "cycles": nr,
                          "engine_functions": sorted(ec.ran), "engine_errors": ec.errors})
